@@ -9,6 +9,7 @@ mod m_c14;
 mod m_c04pkt;
 mod pkt;
 mod m_c16grid;
+mod m_e2e;
 mod m_cfgmap;
 mod m_c20;
 mod m_recv;
@@ -81,6 +82,7 @@ fn main() {
         "recv" => m_recv::run(&args, &mut out),
         "cfgmap" => m_cfgmap::run(&args, &mut out),
         "c16grid" => m_c16grid::run(&args, &mut out),
+        "e2e" => m_e2e::run(&args, &mut out),
         other => { eprintln!("unknown mode {other}"); std::process::exit(2); }
     }
     out.w.flush().unwrap();
